@@ -17,6 +17,7 @@ C16 — function items are first-class values: closures, partial application, HO
 from __future__ import annotations
 
 import sys
+from decimal import Decimal
 from pathlib import Path
 
 sys.path.insert(0, str(Path(__file__).resolve().parent.parent))
@@ -27,6 +28,7 @@ FUEL = 400
 
 # ------------------------------------------------------------------------------- types
 I, B = 'I', 'B'
+N, A = 'N', 'A'      # N: one numeric item (integer / decimal / double), A: one atomic item (N or boolean)
 
 
 def S(t):
@@ -52,6 +54,8 @@ def subtype(a, b) -> bool:
     """a value of type a can be used where b is expected"""
     if a == b:
         return True
+    if (a, b) in ((I, N), (I, A), (N, A), (B, A)):
+        return True
     if is_seq(b) and not is_seq(a):
         return subtype(a, b[1])
     if is_seq(a) and is_seq(b):
@@ -72,7 +76,7 @@ POLY = {'count': lambda t: F([t], I), 'reverse': lambda t: F([t], t), 'head': la
 
 # --------------------------------------------------------------------------- printers
 def is_atomic(e) -> bool:
-    return e[0] in ('lit', 'var', 'dot', 'tt', 'ff', 'emp', 'par')
+    return e[0] in ('lit', 'dlit', 'elit', 'var', 'dot', 'tt', 'ff', 'emp', 'par')
 
 
 def xp(e) -> str:
@@ -81,6 +85,12 @@ def xp(e) -> str:
     k = e[0]
     if k == 'lit':
         return str(e[1]) if e[1] >= 0 else f'(-{-e[1]})'
+    if k == 'dlit':
+        return f'{e[1]}.0' if e[1] >= 0 else f'(-{-e[1]}.0)'
+    if k == 'elit':
+        return f'{e[1]}e0' if e[1] >= 0 else f'(-{-e[1]}e0)'
+    if k == 'inst':
+        return f'{wrap(e[2])} instance of xs:{e[1]}'
     if k == 'tt':
         return 'true()'
     if k == 'ff':
@@ -136,7 +146,7 @@ def wrap(e) -> str:
 
 def seqarg(e) -> str:
     """positions the real code pulls lazily: always materialised (parenthesised / variable / literal)"""
-    return xp(e) if e[0] in ('lit', 'var', 'emp', 'par') else f'({xp(e)})'
+    return xp(e) if e[0] in ('lit', 'dlit', 'elit', 'var', 'emp', 'par') else f'({xp(e)})'
 
 
 def funarg(e) -> str:
@@ -149,8 +159,10 @@ def proto(e) -> str:
 
     def go(e):
         k = e[0]
-        if k in ('lit', 'var'):
+        if k in ('lit', 'dlit', 'elit', 'var'):
             out.extend([k, str(e[1])])
+        elif k == 'inst':
+            out.extend(['inst', e[1]]); go(e[2])
         elif k in ('tt', 'ff', 'emp', 'dot'):
             out.append(k)
         elif k in ('add', 'sub', 'mul', 'gt', 'eq', 'cat', 'smap', 'forEach', 'filter', 'sortK'):
@@ -197,8 +209,10 @@ def renumber(e):
             return ('call', go(e[1]), [None if a is None else go(a) for a in e[2]])
         if k == 'apply':
             return ('apply', go(e[1]), [go(m) for m in e[2]])
-        if k in ('lit', 'var', 'named'):
+        if k in ('lit', 'dlit', 'elit', 'var', 'named'):
             return e
+        if k == 'inst':
+            return ('inst', e[1], go(e[2]))
         if k in ('for', 'let'):
             return (k, e[1], go(e[2]), go(e[3]))
         return (k,) + tuple(go(x) for x in e[1:])
@@ -209,7 +223,7 @@ def size(e) -> int:
     if e is None or not isinstance(e, tuple):
         return 0
     k = e[0]
-    if k in ('lit', 'var', 'named'):
+    if k in ('lit', 'dlit', 'elit', 'var', 'named'):
         return 1
     if k == 'fn':
         return 1 + size(e[3])
@@ -227,7 +241,7 @@ def names(e, acc: set):
     k = e[0]
     if k == 'var':
         acc.add(e[1])
-    elif k in ('lit', 'named'):
+    elif k in ('lit', 'dlit', 'elit', 'named'):
         pass
     elif k == 'fn':
         acc.update(e[2]); names(e[3], acc)
@@ -249,7 +263,7 @@ def wellformed(e) -> bool:
     if e is None or not isinstance(e, tuple):
         return True
     k = e[0]
-    if k in ('lit', 'var', 'named'):
+    if k in ('lit', 'dlit', 'elit', 'var', 'named'):
         return True
     if k == 'for' and e[1] in names(e[2], set()):
         return False
@@ -267,7 +281,7 @@ def kinds(e, acc: set):
         return acc
     k = e[0]
     acc.add(k)
-    if k in ('lit', 'var', 'named'):
+    if k in ('lit', 'dlit', 'elit', 'var', 'named'):
         return acc
     if k == 'fn':
         kinds(e[3], acc)
@@ -338,6 +352,8 @@ class Gen:
             return self.gen_int(sc, d)
         if t == B:
             return self.gen_bool(sc, d)
+        if t in (N, A):
+            return self.gen_atomic(t, sc, d)
         if is_fun(t):
             return self.gen_fun(t, sc, d)
         if is_seq(t):
@@ -357,7 +373,15 @@ class Gen:
             return self.lit()
         if t == B:
             return (r.choice(['tt', 'ff']),)
+        if t in (N, A):
+            return self.numlit(t)
         if is_seq(t):
+            if t[1] in (N, A):
+                n = r.choice([1, 2, 3, 4, 5])
+                e = self.numlit(t[1])
+                for _ in range(n - 1):
+                    e = ('cat', e, self.numlit(t[1]))
+                return e
             if t[1] == I:
                 n = r.choice([0, 1, 2, 3, 3, 4])
                 if n == 0:
@@ -370,6 +394,48 @@ class Gen:
         if is_fun(t):
             return self.gen_fun(t, sc, 0)
         raise ValueError(t)
+
+    def numlit(self, t):
+        """small numbers in all three numeric types (and booleans for A): equal values of different
+        type are frequent"""
+        r = self.rng
+        if t == A and r.random() < 0.3:
+            return (r.choice(['tt', 'ff']),)
+        v = r.choice([0, 1, 1, 1, 2, 2, 3, -1])
+        return (r.choice(['lit', 'dlit', 'elit']), v)
+
+    def typecode(self, v, sc, d):
+        """an integer (sequence) that tells the type of $v apart: nested `instance of` tests"""
+        r = self.rng
+        codes = r.sample(range(0, 6), 4)
+        tests = ['boolean', 'integer', 'decimal', 'double']
+        r.shuffle(tests)
+        if 'decimal' in tests and 'integer' in tests and tests.index('decimal') < tests.index('integer'):
+            pass    # then integers take the decimal branch too: still a function of the type
+        e = ('lit', codes[3])
+        for t, c in zip(tests[:3], codes[:3]):
+            e = ('ite', ('inst', t, ('var', v)), ('lit', c), e)
+        self.tags.add('typecode')
+        return e
+
+    def gen_atomic(self, t, sc, d):
+        r = self.rng
+        k = r.random()
+        if k < 0.35:
+            return self.numlit(t)
+        if k < 0.5:
+            return (r.choice(['add', 'sub', 'mul']), self.gen(N, sc, d - 1), self.gen(N, sc, d - 1))
+        if k < 0.6:
+            return ('call', ('named', 'abs'), [self.gen(N, sc, d - 1)])
+        if k < 0.7:
+            return ('call', ('named', 'sum'), [self.gen(S(N), sc, d - 1)])
+        if k < 0.8:
+            return ('ite', self.gen(B, sc, d - 1), self.gen(t, sc, d - 1), self.gen(t, sc, d - 1))
+        if k < 0.9:
+            return self.call_of(F([r.choice([I, N, A])], t), sc, d)
+        if t == A:
+            return self.gen(r.choice([N, B]), sc, d - 1)
+        return self.gen(I, sc, d - 1)
 
     def binder(self, t, sc, d):
         """let / (for returning a sequence) / if around an expression of type t"""
@@ -392,6 +458,9 @@ class Gen:
 
     def gen_int(self, sc, d):
         r = self.rng
+        avs = [v for v in self.visible(sc, A) if v not in self.visible(sc, I) and v not in self.visible(sc, B)]
+        if avs and r.random() < 0.4:
+            return self.typecode(r.choice(avs), sc, d)
         k = r.random()
         if k < 0.22:
             op = r.choice(['add', 'add', 'sub', 'mul'])
@@ -422,7 +491,11 @@ class Gen:
 
     def gen_bool(self, sc, d):
         r = self.rng
+        if r.random() < 0.15:
+            return ('inst', r.choice(['integer', 'decimal', 'double', 'boolean']), self.gen(A, sc, d - 1))
         k = r.random()
+        if k < 0.1:
+            return (r.choice(['gt', 'eq']), self.gen(N, sc, d - 1), self.gen(N, sc, d - 1))
         if k < 0.55:
             return (r.choice(['gt', 'gt', 'eq']), self.gen(I, sc, d - 1), self.gen(I, sc, d - 1))
         if k < 0.7:
@@ -524,10 +597,21 @@ class Gen:
             s1 = r.choice([IS, IS, S(F([I], I))]) if d > 2 else IS
             f = self.gen(F([s1[1], I], r.choice([t, el])), sc, d - 1)
             return ('pairs', self.gen(s1, sc, d - 1), self.gen(IS, sc, d - 1), self.hofwrap(f))
-        if k < 0.78 and el == I:
-            kf = self.gen(F([I], r.choice([I, I, IS])), sc, d - 1)
-            self.tags.add('sort')
-            return ('sortK', self.gen(IS, sc, d - 1), kf)
+        if k < 0.78 and el in (I, N, A):
+            if el != I and r.random() < 0.6:
+                # a key that tells equal values of different type apart (and optionally the value)
+                p = self.fresh(sc)
+                key = self.typecode(p, sc, d)
+                u = r.random()
+                if u < 0.3:
+                    key = ('cat', key, ('ite', ('inst', 'boolean', ('var', p)), ('lit', 0), ('var', p)))
+                elif u < 0.5:
+                    key = ('cat', ('ite', ('inst', 'boolean', ('var', p)), ('lit', 1), ('var', p)), key)
+                kf = ('fn', 0, [p], key)
+            else:
+                kf = self.gen(F([el], r.choice([I, I, IS])), sc, d - 1)
+            self.tags.add('sort' if el == I else 'sort-mixed')
+            return ('sortK', self.gen(t, sc, d - 1), kf)
         if k < 0.84:
             return ('call', ('named', r.choice(['reverse', 'tail', 'head'])), [self.gen(t, sc, d - 1)])
         if k < 0.92:
@@ -624,6 +708,69 @@ class Gen:
         self.tags.add('history')
         return ('let', fs, makers, e)
 
+    def pdag(self, d):
+        """partial-application DAGs: several partials derived from one base function, partials of
+        partials, every node used several times in random order (also once per item of a
+        for / for-each), so that a partial is used again AFTER another partial was derived from it"""
+        r = self.rng
+        arity = r.choice([2, 3, 3, 4])
+        ps = list(range(10, 10 + arity))
+        if r.random() < 0.6:
+            body = ('var', ps[0])
+            for p in ps[1:]:
+                body = ('cat', body, ('var', p))
+            ret = IS
+        else:
+            body = ('var', ps[0])
+            for p in ps[1:]:
+                body = ('add', ('mul', body, ('lit', 10)), ('var', p))
+            ret = I
+        base = ('fn', 0, ps, body)
+        nodes = [(0, arity)]              # (variable, number of placeholders)
+        binds = [(0, base)]
+        nxt = 1
+        for _ in range(r.choice([2, 3, 3, 4, 5])):
+            src, k = r.choice(nodes)
+            if r.random() < 0.15:
+                fixed = []                # identity partial f(?, ?, …)
+            else:
+                fixed = sorted(r.sample(range(k), r.randint(1, max(1, k - 1)))) if k > 1 else []
+            args = [self.lit() if i in fixed else None for i in range(k)]
+            if all(a is not None for a in args):
+                args[r.randrange(k)] = None
+            binds.append((nxt, ('call', ('var', src), args)))
+            nodes.append((nxt, sum(1 for a in args if a is None)))
+            nxt += 1
+        loopv = nxt
+
+        def use(in_loop):
+            v, k = r.choice(nodes)
+            def arg():
+                return ('var', loopv) if in_loop and r.random() < 0.5 else self.lit()
+            if k > 1 and r.random() < 0.3:
+                # partial application on the fly, then the call
+                keep = r.randrange(k)
+                return ('call', ('call', ('var', v), [None if i == keep else arg() for i in range(k)]), [arg()])
+            return ('call', ('var', v), [arg() for _ in range(k)])
+
+        uses = []
+        for _ in range(r.choice([3, 4, 5, 6])):
+            u = r.random()
+            if u < 0.6:
+                uses.append(use(False))
+            elif u < 0.8:
+                uses.append(('for', loopv, seq(*[self.lit() for _ in range(r.choice([2, 3]))]), use(True)))
+            else:
+                uses.append(('forEach', seq(*[self.lit() for _ in range(r.choice([2, 3]))]),
+                             self.hofwrap(('fn', 0, [loopv], use(True)))))
+        e = uses[0]
+        for u in uses[1:]:
+            e = ('cat', e, u)
+        for v, b in reversed(binds):
+            e = ('let', v, b, e)
+        self.tags.add('pdag')
+        return e
+
     def selfrec(self, d):
         """recursion through a function passed to itself"""
         r = self.rng
@@ -648,9 +795,11 @@ class Gen:
             e = self.history(d)
         elif k < 0.35:
             e = self.selfrec(d)
+        elif k < 0.45:
+            e = self.pdag(d)
         else:
             sc0 = {'vars': [], 'dot': I}
-            e = self.gen(r.choice([IS, IS, I, IS, B]), sc0, d)
+            e = self.gen(r.choice([IS, IS, I, IS, B, S(A), S(A), S(N)]), sc0, d)
         if not wellformed(e):
             return self.program(quick)
         return renumber(e), sorted(self.tags)
@@ -667,6 +816,10 @@ def canon_items(v) -> str:
             out.append('true' if x else 'false')
         elif isinstance(x, int):
             out.append(str(x))
+        elif isinstance(x, Decimal):
+            out.append(f'D{int(x)}' if x == x.to_integral_value() else f'?Decimal:{x}')
+        elif isinstance(x, float):
+            out.append(f'E{int(x)}' if x == x and abs(x) != float('inf') and x == int(x) else f'?float:{x!r}')
         elif isinstance(x, XPathFunction):
             out.append('F')
         elif isinstance(x, list):
@@ -862,6 +1015,12 @@ CORPUS = [
      ('smap', ('par', ('for', 5, seq(L(1), L(2)), ('call', V(0), [None, V(5)]))), ('call', ('dot',), [L(10)]))),
     ('let', 0, fn([1, 2, 3], seq(V(1), V(2), V(3))),
      ('call', ('call', ('call', V(0), [None, L(5), None]), [None, L(2)]), [L(1)])),
+    # seeded change m2: a partial used again after another partial was derived from it
+    ('let', 0, fn([1, 2, 3], seq(V(1), V(2), V(3))),
+     ('let', 4, ('call', V(0), [None, L(2), None]), ('let', 5, ('call', V(4), [L(1), None]),
+      seq(('call', V(5), [L(3)]), ('call', V(4), [L(5), L(6)]), ('call', ('call', V(4), [None, L(9)]), [L(8)]))))),
+    ('let', 0, ('call', fn([1, 2, 3], seq(V(1), V(2), V(3))), [None, L(2), None]),
+     ('for', 6, seq(L(1), L(2)), seq(('call', ('call', V(0), [V(6), None]), [L(7)]), ('call', V(0), [L(5), V(6)])))),
     # F16h: predicate result as a one-item sequence
     ('filter', seq(L(1), L(2), L(3)), fn([0], ('let', 1, V(0), ('gt', V(1), L(1))))),
     # arity
@@ -973,7 +1132,12 @@ def subterms(e):
     """candidate replacements for shrinking: e replaced by one of its children (type-unsafe candidates are
     filtered by re-running)"""
     k = e[0]
-    if k in ('lit', 'var', 'named', 'tt', 'ff', 'emp', 'dot'):
+    if k in ('lit', 'dlit', 'elit', 'var', 'named', 'tt', 'ff', 'emp', 'dot'):
+        return
+    if k == 'inst':
+        yield e[2]
+        for b in subterms(e[2]):
+            yield ('inst', e[1], b)
         return
     if k == 'fn':
         for b in subterms(e[3]):
